@@ -47,6 +47,17 @@ type ptCase struct {
 	holdNext bool
 	heldGid  int64
 	heldGate chan struct{}
+	// cancellers: goroutines that call Cancel() concurrently; each is parked just BEFORE it takes the
+	// dispatcher's lock (hook "before") until `release`, so that a watcher can pop / other futures can move in between
+	cancellers map[int64]*ptCanceller
+}
+
+type ptCanceller struct {
+	fut     int
+	gate    chan struct{}
+	parked  bool
+	done    chan struct{}
+	hBefore int
 }
 
 func (c *ptCase) thread(gid int64) *ptThread {
@@ -184,6 +195,17 @@ func (c *ptCase) flush(gs map[int64]goState) {
 			// compared after the watcher sections that follow)
 			continue
 		}
+		if r.kind == "csec" {
+			// a concurrent Cancel(fut) ran its locked section: if the heap shrank it removed a future — which,
+			// by the API's contract, can only be `fut`
+			if r.b == 1 {
+				c.cancelled[r.a] = true
+				c.ctx.R.Op(fmt.Sprintf("cancel %d", r.a), "ok")
+			} else if r.b != 0 {
+				c.ctx.R.Quiet("mon C12-cancel-removes-exactly", fmt.Sprintf("Cancel of future %d changed the number of pending futures by %d", r.a, -r.b))
+			}
+			continue
+		}
 		t := c.thread(r.gid)
 		if t == nil {
 			// watcher threads that have not acted yet are indistinguishable (all at the top of their loop
@@ -227,7 +249,7 @@ func (c *ptCase) flush(gs map[int64]goState) {
 }
 
 func runPoolCase(ctx *Ctx, maxWorkers, idle int, script []string) {
-	c := &ptCase{ctx: ctx, mainGid: goid(), fireT: map[int]int{}, cancelled: map[int]bool{}, started: map[int]int{}, pendingSleep: map[int64][2]interface{}{}, heldGate: make(chan struct{}),
+	c := &ptCase{ctx: ctx, mainGid: goid(), fireT: map[int]int{}, cancelled: map[int]bool{}, started: map[int]int{}, pendingSleep: map[int64][2]interface{}{}, heldGate: make(chan struct{}), cancellers: map[int64]*ptCanceller{},
 		base: time.Date(2030, 1, 1, 0, 0, 0, 0, time.UTC)}
 	om, oi := timeout.VerifSetPool(maxWorkers, time.Duration(idle)*time.Millisecond)
 	timeout.VerifSetClock(func() time.Time {
@@ -256,12 +278,41 @@ func runPoolCase(ctx *Ctx, maxWorkers, idle int, script []string) {
 		return tm
 	}
 	timeout.VerifSectionHook = func(kind, site string, obj any) {
-		if kind != "leave" || !timeout.VerifIsDispatcher(obj) {
+		if !timeout.VerifIsDispatcher(obj) {
+			return
+		}
+		if kind == "before" || kind == "enter" {
+			g := goid()
+			c.mu.Lock()
+			cn := c.cancellers[g]
+			var gate chan struct{}
+			if cn != nil && kind == "before" && cn.gate != nil {
+				cn.parked, gate = true, cn.gate
+			}
+			c.mu.Unlock()
+			if gate != nil {
+				<-gate
+			}
+			if cn != nil && kind == "enter" {
+				_, h, _ := timeout.VerifPoolLocked(obj)
+				c.mu.Lock()
+				cn.hBefore = h
+				c.mu.Unlock()
+			}
+			return
+		}
+		if kind != "leave" {
 			return
 		}
 		w, h, tk := timeout.VerifPoolLocked(obj)
 		g := goid()
 		c.mu.Lock()
+		if cn := c.cancellers[g]; cn != nil {
+			// the locked section of a concurrent Cancel(): did it remove something?
+			c.recs = append(c.recs, ptRec{gid: g, kind: "csec", a: cn.fut, b: cn.hBefore - h, c: h})
+			c.mu.Unlock()
+			return
+		}
 		if t := c.thread(g); t != nil {
 			t.sleeping = false
 		}
@@ -286,6 +337,33 @@ func runPoolCase(ctx *Ctx, maxWorkers, idle int, script []string) {
 		}
 	}
 	release := func() {
+		// parked concurrent Cancel() calls go first, one at a time
+		for {
+			var cn *ptCanceller
+			c.mu.Lock()
+			for _, x := range c.cancellers {
+				if x.gate != nil && x.parked {
+					cn = x
+					break
+				}
+			}
+			var gate chan struct{}
+			if cn != nil {
+				gate, cn.gate = cn.gate, nil
+			}
+			c.mu.Unlock()
+			if cn == nil {
+				break
+			}
+			close(gate)
+			select {
+			case <-cn.done:
+			case <-time.After(2 * time.Second):
+				c.ctx.R.Quiet("mon C13-no-stuck-watcher", "a concurrent Cancel() did not return within 2s")
+				c.failed = true
+			}
+			c.settle()
+		}
 		c.mu.Lock()
 		g, gate := c.heldGid, c.heldGate
 		c.holdNext = false
@@ -349,6 +427,40 @@ func runPoolCase(ctx *Ctx, maxWorkers, idle int, script []string) {
 			ctx.R.Op(fmt.Sprintf("add %d", ft), "ok")
 			c.futs = append(c.futs, timeout.Call(mk(id), time.Duration(x)*time.Millisecond))
 			c.settle()
+		case "cancelhold":
+			// Cancel(x) from another goroutine, parked right before it takes the dispatcher's lock
+			if x >= len(c.futs) || c.cancelled[x] {
+				return
+			}
+			cn := &ptCanceller{fut: x, gate: make(chan struct{}), done: make(chan struct{})}
+			gch := make(chan int64)
+			goAhead := make(chan struct{})
+			go func() {
+				gch <- goid()
+				<-goAhead
+				c.futs[x].Cancel()
+				close(cn.done)
+			}()
+			g := <-gch
+			c.mu.Lock()
+			c.cancellers[g] = cn
+			c.mu.Unlock()
+			close(goAhead)
+			for i := 0; i < 20000; i++ {
+				c.mu.Lock()
+				p := cn.parked
+				c.mu.Unlock()
+				if p {
+					break
+				}
+				select {
+				case <-cn.done:
+					i = 20000
+				default:
+					time.Sleep(10 * time.Microsecond)
+				}
+			}
+			c.nontriv = true
 		case "cancel":
 			if x >= len(c.futs) || c.cancelled[x] || c.started[x] > 0 {
 				return
@@ -512,6 +624,11 @@ func runPool(ctx *Ctx) {
 				script = append(script, fmt.Sprintf("tick %d", []int{1, 2, 5, 11, idle + 1, 60}[r.Intn(6)]))
 			case x < 90:
 				script = append(script, fmt.Sprintf("fire %d", r.Intn(4)))
+			case x < 93:
+				if adds > 0 {
+					// Cancel from another goroutine, stopped right before the dispatcher's lock; released later
+					script = append(script, fmt.Sprintf("cancelhold %d", r.Intn(adds)))
+				}
 			case x < 96:
 				// the next watcher about to sleep is stopped between its section and its select
 				script = append(script, "holdsleep")
@@ -527,6 +644,18 @@ func runPool(ctx *Ctx) {
 			}
 		}
 		if r.Chance(1, 6) {
+			// directed: Cancel(X) is stopped right before the lock; X fires meanwhile (and/or is cancelled a second
+			// time); other futures occupy the heap; then the stopped Cancel goes on: it must not touch anybody else
+			script = []string{"add 2", "add 5", "add 9", "add 40", "cancelhold 0"}
+			switch r.Intn(3) {
+			case 0:
+				script = append(script, "tick 3", "fire 0", "release", "tick 50", "fire 0", "fire 0", "fire 0")
+			case 1:
+				script = append(script, "cancel 0", "release", "tick 50", "fire 0", "fire 0", "fire 0")
+			case 2:
+				script = append(script, "cancelhold 0", "tick 3", "fire 0", "add 1", "release", "tick 50", "fire 0", "fire 0")
+			}
+		} else if r.Chance(1, 6) {
 			// directed: a Call arrives while the only watcher is between its locked section and its select —
 			// the wake token must wait for it in the channel
 			script = []string{"add 50", "holdsleep", "add 500", fmt.Sprintf("add %d", []int{1, 3, 10}[r.Intn(3)]), "release", "tick 2"}
